@@ -4,6 +4,7 @@ import Driver.Suite
 import Driver.Convert
 import Driver.Fee
 import Driver.Mint
+import Driver.GovTally
 open Sunrise.Driver
 
 def evalLine (line : String) : String :=
@@ -23,7 +24,8 @@ partial def loop (h : IO.FS.Stream) (out : IO.FS.Stream) : IO Unit := do
 def suites : List (String × (IO.FS.Stream → IO.FS.Stream → IO Unit)) := [
   ("convert", ConvertSuite.run),
   ("fee", FeeSuite.run),
-  ("mint", MintSuite.run)
+  ("mint", MintSuite.run),
+  ("govtally", GovTallySuite.run)
 ]
 
 def main : IO Unit := do
